@@ -53,6 +53,61 @@ def facts_at(ix, lin, site):
     return forms, descr
 
 
+def callee_range(crate, path, _memo={}):
+    """(min, max) of the integers a same-crate function can return (Ok(k) / k leaves of its result table, error
+    results aside), or None — e.g. a field-width table `match flag { 0 => Ok(0), 1 => Ok(1), 2 => Ok(2), _ => Ok(4) }`"""
+    key = (id(crate), path)
+    if key in _memo:
+        return _memo[key]
+    _memo[key] = None
+    b = crate.hir.get(path) if crate is not None else None
+    if b is None or b.get("body") is None:
+        return None
+    vals = []
+    try:
+        cx = hq.Index(b)
+        for conds, _, lf in cx.result_cases():
+            lf = hq.peel(lf)
+            if lf.get("k") == "Call" and (H.callee(lf) or "").endswith(("Result::Ok", "Option::Some")) and len(lf["args"]) == 1:
+                lf = hq.peel(lf["args"][0])
+            elif lf.get("k") == "Call" and (H.callee(lf) or "").endswith("Result::Err"):
+                continue
+            elif cx.err_valued(lf):
+                continue
+            v = H.lit_val(lf)
+            if not isinstance(v, int) or isinstance(v, bool):
+                return None
+            vals.append(v)
+    except Exception:  # noqa: BLE001
+        return None
+    if vals:
+        _memo[key] = (min(vals), max(vals))
+    return _memo[key]
+
+
+def range_facts(ix, lin, crate):
+    """x in [min, max] for every immutable local initialised from (a cast of) a call — through `?` — of a same-crate
+    function whose results are integer literals"""
+    out = []
+    for n, _ in H.walk(ix.root):
+        if n.get("k") != "LetStmt" or n.get("init") is None or n["pat"].get("k") != "Bind" or n["pat"].get("mut") or n.get("els") is not None:
+            continue
+        e = hq.peel(n["init"])
+        for _i in range(4):
+            if e.get("k") in ("Cast", "Try", "DropTemps"):
+                e = hq.peel(e["e"])
+        if e.get("k") not in ("Call", "MethodCall"):
+            continue
+        c = H.strip_generics(H.callee(e) or "")
+        r = callee_range(crate, c)
+        if r is None:
+            continue
+        x = lin.of({"k": "Local", "lid": n["pat"]["lid"], "name": n["pat"].get("name"), "ty": n["pat"].get("ty") or "usize"})
+        out.append((L.sub(x, ({}, r[0])), "%s returns %d..=%d" % (H.short(c), r[0], r[1])))
+        out.append((L.sub(({}, r[1]), x), "%s returns %d..=%d" % (H.short(c), r[0], r[1])))
+    return out
+
+
 def array_len(ty):
     # "[u8; 4]" / "&[u8; 4]"
     t = ty.strip().lstrip("&").replace("mut ", "").strip()
@@ -108,6 +163,7 @@ def check_sites(ctx, rule, fn_path, ranges_only=True, table=None, only=None, ass
     table = table or {}
     n = 0
     seen = {}
+    rfacts = None
     for site, rp in index_sites(body["body"], ranges_only):
         if only is not None and not only(site):
             continue
@@ -121,6 +177,11 @@ def check_sites(ctx, rule, fn_path, ranges_only=True, table=None, only=None, ass
         key = k0 if seen[k0] == 1 else "%s#%d" % (k0, seen[k0])
         n += 1
         facts, descr = facts_at(ix, lin, site)
+        if rfacts is None:
+            rfacts = range_facts(ix, lin, ctx.crate())
+        for f_, d_ in rfacts:
+            facts.append(f_)
+            descr.append(d_)
         for a in (assume(ix, lin) if assume else ()):
             facts.append(a)
             descr.append("caller-established precondition")
